@@ -1,11 +1,17 @@
 //! Property registry: `run` dispatches a property id to its decision procedure; `replay_case`
 //! re-executes one recorded case.
 
+pub mod direction;
 pub mod inputs;
+pub mod matches;
+pub mod metamorphic;
+pub mod universe;
 #[cfg(feature = "likelysubtags")]
 pub mod likely;
 pub mod selftest;
 pub mod subtags;
+#[cfg(all(unic_locale_verif, feature = "likelysubtags"))]
+pub mod tables;
 
 use crate::engine::*;
 
@@ -19,8 +25,13 @@ pub fn run(ctx: &Ctx) -> Option<Report> {
         "C07" => likely::run_c07(ctx),
         #[cfg(feature = "likelysubtags")]
         "C08" => likely::run_c08(ctx),
+        "C09" => metamorphic::run_c09(ctx),
+        "C11" => matches::run_c11(ctx),
         "C13" => inputs::run_c13(ctx),
+        "C14" => direction::run_c14(ctx),
         "C15" => subtags::run_c15(ctx),
+        #[cfg(all(unic_locale_verif, feature = "likelysubtags"))]
+        "C18" => tables::run_c18(ctx),
         _ => return None,
     })
 }
@@ -35,6 +46,9 @@ const SUBS: &[&str] = &[
     "c13.superset", "c13.conv", "c13.prefix",
     "c15.text", "c15.eq_str", "c15.accept", "c15.reject", "c15.panic", "c15.fromstr", "c15.tryfrom", "c15.und",
     "c17.raw",
+    "c09.locale", "c09.langid",
+    "c11.panic", "c11.formula", "c11.symmetry", "c11.language", "c11.equality", "c11.monotone", "c11.locale", "c11.asref", "c11.reflexive",
+    "c14.setup", "c14.panic", "c14.cldr", "c14.cldr_base", "c14.script", "c14.default_ltr", "c14.variants",
     "c06.panic", "c06.maximize", "c06.entry", "c06.inplace",
     "c07.panic", "c07.keeps", "c07.fills", "c07.changed", "c07.idempotent", "c07.bool", "c07.false_unchanged", "c07.variants", "c07.extensions", "c07.setup",
     "c08.panic", "c08.meaning", "c08.subtags", "c08.longer", "c08.first", "c08.idempotent", "c08.min_max", "c08.reference", "c08.bool", "c08.false_unchanged", "c08.variants", "c08.extensions", "c08.setup",
@@ -72,6 +86,9 @@ pub fn replay_case(_ctx: &Ctx, sub: &'static str, case: &Case) -> Vec<(String, S
         }
         #[cfg(feature = "likelysubtags")]
         Case::Text(t) if t.starts_with("triple:") => likely::replay(_ctx, sub, t, &coll),
+        Case::Text(t) if t.starts_with("pair:") => matches::replay(t, &coll),
+        Case::Text(t) if t.starts_with("mpair:") => metamorphic::replay(t, &coll),
+        Case::Text(t) if t.starts_with("direction:") => direction::replay(_ctx, t, &coll),
         _ => {}
     }
     coll.classes()
@@ -79,4 +96,17 @@ pub fn replay_case(_ctx: &Ctx, sub: &'static str, case: &Case) -> Vec<(String, S
         .filter(|(_, _, v)| v.sub == sub)
         .map(|(_, _, v)| (v.sub.to_string(), v.expected, v.observed))
         .collect()
+}
+
+pub fn likely_kind(t: refmodel::likely::Triple) -> u32 {
+    (t.0 != 0) as u32 * 4 + (t.1 != 0) as u32 * 2 + (t.2 != 0) as u32
+}
+
+/// `mc aux <what> <tier>`: the part of a multi-build property that this build decides,
+/// printed as one JSON line.
+pub fn aux(ctx: &Ctx, what: &str) -> Option<serde_json::Value> {
+    match what {
+        "c14" => Some(direction::report_to_json(&direction::run_build(ctx))),
+        _ => None,
+    }
 }
